@@ -58,16 +58,7 @@ func (e env) ctx(withData bool, feeder func(string) (string, error)) *plush.Cont
 
 func mkEnv() env {
 	e := env{v: val(), c: val(), lit: vrt.Bytes(1)}
-	noNUL(e.v)
-	noNUL(e.c)
-	noNUL(e.lit)
 	return e
-}
-
-func noNUL(s string) {
-	for i := 0; i < len(s); i++ {
-		vrt.Assume(s[i] != 0)
-	}
 }
 
 // inline: what the body renders to when written inline in the caller's scope extended with the data
@@ -156,7 +147,6 @@ func ContentType() {
 func ContentForOf() {
 	e := mkEnv()
 	v2 := val()
-	noNUL(v2)
 	body := bodies[vrt.Choice(len(bodies))]
 	ctx := e.ctx(false, nil)
 	ctx.Set("V2", v2)
